@@ -20,6 +20,12 @@ def _calls(n) -> List[ast.Call]:
 def run(chk: Check) -> None:
     prog = chk.prog
     pc = prog.module('process_comms')
+    # "persisting it first ... continue resumes exactly the persisted checkpoint": what the persister stores is detached from the process that goes on
+    # running (shared with C14); "the configured loader is the one used": a loader in the load context wins over one named in the saved state (shared with C19)
+    from .c14 import snapshot_isolation
+    from .c19 import loader_precedence
+    snapshot_isolation(chk)
+    loader_precedence(chk, 'PROV-loader')
     pl = prog.cls('process_comms.ProcessLauncher')
     call = prog.view(pl.methods['__call__'])
     # 1. DISP
